@@ -6,6 +6,7 @@ R04.3 s1 = c1 - Tout30, s2 = c2 - Tout33; boundary data keep their roles through
 R04.4 every returned temperature is a root of that residual or is accompanied by a failure signal
 R04.5 orientation: profiles with end points put the T-/low-T item first and the T+/high-T item last
 R04.6 the minimised and the root-solved function are the same residual with the same data
+R04.7 the out-of-equilibrium T30 / T33 assembled from the moments equal the direct integral of p^mu p^nu deltaF (shared with C13)
 """
 from __future__ import annotations
 
@@ -246,3 +247,8 @@ def rules(chk: Check) -> None:
     r04_4(chk)
     r04_5(chk)
     r04_6(chk)
+    # the out-of-equilibrium stress components subtracted from c1, c2 are the direct moment expressions (shared with C13)
+    from ..core import Remap
+    from .c13 import r13_2
+    r13_2(Remap(chk, {"R13.2": "R04.7"}))
+    chk.floor("R04.7", 4)
